@@ -14,7 +14,7 @@ Streams (each x {untrusted, trusted})
   wire.tot.known    the class F-C14-1 (decodable v2 ProofOfSpace whose proof has no quality string: hash() panics)
 Compared with the model: decode outcome and bytes consumed, from_bytes outcome, which operation panics/errs.
 Implementation-only oracle: no panic in decoding; no panic in any operation unless the model classifies the value
-into F-C14-1; from_bytes ok => whole input consumed; peak allocation <= the proved bound (depth+1)*2 MiB + c_ty*len
+into F-C14-1; from_bytes ok => whole input consumed; peak allocation <= alloc_bound = (depth+1)*2 MiB + c_ty*len (also checked for the model's own meter)
 and <= the model's meter + slack; wall time per case below the cap; size_of::<T>() <= mem_size(T) for every type."""
 import os, sys, json
 sys.path.insert(0, os.path.dirname(os.path.dirname(os.path.abspath(__file__))))
@@ -223,8 +223,10 @@ def run_tot(rep, cache, have_model, stream, cases, D, known_stream=False):
                 why = "an operation on a successfully decoded value panics (not the known class F-C14-1)"
         if why is None and "A" in ti and have_model and "BOUND" in tm:
             a_real, bound, a_model = int(ti["A"]), int(tm["BOUND"]), int(tm["A"])
-            if a_real > bound:
-                why = "peak allocation %d exceeds the proved bound %d for %d input bytes" % (a_real, bound, len(bs))
+            if a_model > bound:
+                why = "the MODEL's allocation meter %d exceeds alloc_bound %d for %d input bytes (the bound formula is wrong)" % (a_model, bound, len(bs))
+            elif a_real > bound:
+                why = "peak allocation %d exceeds the bound %d for %d input bytes" % (a_real, bound, len(bs))
             elif a_real > a_model + SLACK_ABS + a_model // 8:
                 why = "peak allocation %d exceeds the model's meter %d (+slack)" % (a_real, a_model)
             if len(bs):
